@@ -37,6 +37,48 @@ fn verif_replay() {
             }
             println!("VERIF-OUTCOME {}", serde_json::json!({"panicked": panicked, "mismatch": mismatch, "rows": rows}));
         }
+        "accessor" => {
+            let field = a["field"].as_str().unwrap().to_string();
+            let ctx: ScriptContextRef = Arc::new(create_context(Default::default()));
+            let objs: Vec<(&str, Box<dyn Accessible>)> = vec![
+                ("TargetAddress", Box::new(TargetAddress::DomainPort("example.org".into(), 443))),
+                ("SocketAddress", Box::new(SocketAddress("127.0.0.1:80".parse().unwrap()))),
+            ];
+            let mut rows = vec![];
+            let mut mismatch = false;
+            for (n, o) in objs.iter() {
+                if *n != a["object"].as_str().unwrap_or("") { continue; }
+                let declared = o.type_of(&field, ctx.clone()).map(|t| t.to_string()).unwrap_or_else(|e| format!("err:{}", e));
+                let actual = match o.get(&field) {
+                    Ok(Value::Integer(_)) => "integer".to_string(),
+                    Ok(Value::Boolean(_)) => "boolean".to_string(),
+                    Ok(Value::String(_)) => "string".to_string(),
+                    Ok(_) => "other".to_string(),
+                    Err(e) => format!("err:{}", e),
+                };
+                if declared != actual { mismatch = true; }
+                rows.push(serde_json::json!({"object": n, "field": field, "declared": declared, "actual": actual}));
+            }
+            println!("VERIF-OUTCOME {}", serde_json::json!({"panicked": false, "mismatch": mismatch, "rows": rows}));
+        }
+        "op" => {
+            // type-check one call of cidr_match on literal operands (any count)
+            let args: Vec<Value> = a["operands"].as_array().unwrap().iter().map(|v| match v["kind"].as_u64().unwrap_or(0) {
+                0 => Value::Integer(v["int"].as_i64().unwrap_or(0)),
+                1 => Value::Boolean(v["bool"].as_bool().unwrap_or(false)),
+                _ => {
+                    let h = v["str"].as_str().unwrap_or("");
+                    let b: Vec<u8> = (0..h.len() / 2).map(|i| u8::from_str_radix(&h[2 * i..2 * i + 2], 16).unwrap()).collect();
+                    Value::String(String::from_utf8_lossy(&b).to_string())
+                }
+            }).collect();
+            let ctx: ScriptContextRef = Arc::new(create_context(Default::default()));
+            let r = catch_unwind(AssertUnwindSafe(|| CidrMatch::stub().signature(ctx, &args)));
+            match r {
+                Err(_) => println!("VERIF-OUTCOME {}", serde_json::json!({"sig_panicked": true, "panicked": true, "sig_ok": false})),
+                Ok(s) => println!("VERIF-OUTCOME {}", serde_json::json!({"sig_panicked": false, "panicked": false, "sig_ok": s.is_ok()})),
+            }
+        }
         d => println!("VERIF-OUTCOME {}", serde_json::json!({"unknown_driver": d})),
     }
 }
